@@ -111,6 +111,17 @@ fn call_consist(o: &mut Consist, fname: &str, a: &[Value]) -> CallRes {
     }
 }
 
+fn call_pdct(o: &mut PowerDistributionControlType, fname: &str, a: &[Value]) -> CallRes {
+    let locos: Vec<Locomotive> = serde_json::from_value(a[0].clone()).map_err(|e| Unsup(format!("loco_vec: {e}")))?;
+    let st: ConsistState = serde_json::from_value(a[1].clone()).map_err(|e| Unsup(format!("consist state: {e}")))?;
+    let r = match fname {
+        "<PowerDistributionControlType as SolvePower>::solve_positive_traction" => o.solve_positive_traction(&locos, &st),
+        "<PowerDistributionControlType as SolvePower>::solve_negative_traction" => o.solve_negative_traction(&locos, &st),
+        _ => return Err(Unsup(format!("no runner entry for {fname}"))),
+    };
+    Ok(r.map(|v| json!(v.iter().map(|x| x.get::<si::watt>()).collect::<Vec<f64>>())))
+}
+
 fn vf(v: &Value) -> Vec<f64> {
     v.as_array().map(|a| a.iter().map(f).collect()).unwrap_or_default()
 }
@@ -157,6 +168,7 @@ pub fn dispatch(line: &str) -> String {
     let ty = req["recv_ty"].as_str().unwrap_or("").to_string();
     let out = match ty.as_str() {
         "<free>" => run_free(&req),
+        "PowerDistributionControlType" => run::<PowerDistributionControlType>(&req, call_pdct),
         "Locomotive" => run::<Locomotive>(&req, call_loco),
         "Consist" => run::<Consist>(&req, call_consist),
         "FuelConverter" => run::<FuelConverter>(&req, call_fc),
